@@ -74,6 +74,25 @@ def serializer_widths(ctx, ck):
             exh = all(any(g.kind == "guard" and g.b == "None" for g in q.events) for q in rest)
             ok = good and exh
             why = None if ok else "body is not `for b in &x.to_ne_bytes() { self.sink.push(*b) }`"
+        elif ok and not loops:
+            # self.sink.extend_from_slice(&x.to_ne_bytes()): the same bytes, in the same order, in one call
+            x = T("param", 2, b.dbg.get(2, ""))
+            rets = [q for q in mir.walk_function(b) if q.outcome[0] == "return"]
+            good = len(rets) == 1 and not [g for g in rets[0].events if g.kind == "guard"]
+            if good:
+                ext = [e for e in rets[0].events if e.kind == "call" and mir.method_name(e.a) in ("extend_from_slice", "extend")]
+                others = [e for e in rets[0].events if e.kind == "call" and e.d and e not in ext]
+                good = len(ext) == 1 and not others
+                if good:
+                    recv, val = ext[0].b[0], mir.strip(ext[0].b[1])
+                    while isinstance(val, tuple) and val[0] == "call" and mir.method_name(val[1]) in ("deref", "as_slice", "as_ref", "unsize", "iter", "into_iter", "copied", "cloned"):
+                        val = mir.strip(val[2][0])
+                    if isinstance(val, tuple) and val[0] in ("iter",):
+                        val = mir.strip(val[1])
+                    good = (mir.strip(recv) == T("field", T("param", 1, b.dbg.get(1, "")), "sink") and isinstance(val, tuple) and val[0] == "call"
+                            and mir.method_name(val[1]) == "to_ne_bytes" and val[2] == (x,))
+            ok = good
+            why = None if ok else "body is neither `for b in &x.to_ne_bytes() { self.sink.push(*b) }` nor `self.sink.extend_from_slice(&x.to_ne_bytes())`"
         elif ok:
             ok = False
             why = "expected exactly one loop"
@@ -87,7 +106,15 @@ def record_emitter(ctx, ck, widths):
     """the closure (or function) that emits one record: a straight-line sequence of add_* calls on the same
     serializer. -> (callable name, [(width, ty, value term)]) with value terms over the closure's params"""
     cands = []
-    for b in ctx.closures_of(WRITER):
+    bodies = list(ctx.closures_of(WRITER))
+    # ... or a free helper function called by the writer: fn add_record(data: &mut StructSerializer, type_, code, value)
+    wbody = ctx.body(WRITER)
+    for i, name, t in wbody.calls():
+        if name in ctx.F.bodies and not name.startswith(SER) and "{closure" not in name and name != WRITER and name not in [b_.path for b_ in bodies]:
+            hb = ctx.body(name)
+            if hb.ltypes.get(1, "").replace("&mut ", "").replace("&", "").strip().endswith("StructSerializer"):
+                bodies.append(hb)
+    for b in bodies:
         ps = mir.walk_function(b)
         rets = [p for p in ps if p.outcome[0] == "return"]
         if len(rets) != 1:
@@ -116,6 +143,17 @@ def record_emitter(ctx, ck, widths):
 
 
 def run(ctx):
+    # the record emitter may be a closure or a helper function; it is analysed as a unit of its own, so the walker's
+    # automatic splicing of new helpers is switched off while this rule set runs
+    saved = mir.Walker.AUTO_INLINE
+    mir.Walker.AUTO_INLINE = False
+    try:
+        return _run(ctx)
+    finally:
+        mir.Walker.AUTO_INLINE = saved
+
+
+def _run(ctx):
     ck = ctx.check
     ck.rule_text = ("obligations: per serializer method, per record field (offset/width/value), per writer path class, per reader "
                     "path class, and one per KeyCode variant (exhaustive)")
@@ -189,8 +227,11 @@ def run(ctx):
                 out = []
                 for e in p.events:
                     if e.kind == "call" and e.a == eb.path:
-                        tup = e.b[1]
-                        vals = tup[1] if isinstance(tup, tuple) and tup[0] == "tuple" else None
+                        if "{closure" in eb.path:
+                            tup = e.b[1]
+                            vals = tup[1] if isinstance(tup, tuple) and tup[0] == "tuple" else None
+                        else:
+                            vals = tuple(e.b[1:])       # helper function: (serializer, type_, code, value)
                         out.append((e, vals))
                 return out
             evs_param = T("param", 2, wb.dbg.get(2, ""))
